@@ -90,7 +90,7 @@ def run(chk: Check) -> None:
             n += 2
             delegation(chk, mod, "%s_blocks_%s" % (stem, s), [("attr", ("self",), "sections")], "R05.5")
             delegation(chk, ir, "%s_blocks_%s" % (stem, s), [("attr", ("self",), "modules")], "R05.5")
-    chk.floor("R05.5", "block lookup methods", n, 30)
+    chk.floor("R05.5", "block lookup methods", n, 21)
     bias_consumers(chk, "R05.6", ["util", "section"])
     for prop, rule, construct, ok, loc, msg, facts in own.obs:
         if prop == "C04" and rule in ("R03.3", "R03.5"):
